@@ -142,11 +142,18 @@ def run_kani_units(pid, units, tier, log, only_harness=None):
                 else:
                     v.update(status='undecided', reason='no verdict (out of memory / killed?): ' + r['raw'][-300:])
             verdicts.append(v)
-    # concrete playback for failures
+    # concrete playback for failures (at most two per unit: each re-runs CBMC; further failing harnesses of
+    # the same unit are reported with the verifier's output only)
+    played = {}
     for v in verdicts:
         if v.get('status') != 'failed':
             continue
         u, h = v['_unit'], v['_h']
+        played[u['name']] = played.get(u['name'], 0) + 1
+        if played[u['name']] > 2:
+            v['playback_tests'] = None
+            v['native_replay'] = {'skipped': 'more than two failing harnesses in this unit; see the first two replays'}
+            continue
         full = '%s::%s' % (K.full_mod_path(u), h['name'])
         log('[kani] %s failed: concrete playback ...' % full)
         tests = K.playback_print(wsdir, u['package'], u.get('features', []), bool(u.get('no_default_features')),
